@@ -8,6 +8,7 @@
 #include "ambient.h"
 #include "runner.h"
 #include "statics.h"
+#include "constmem.h"
 #ifdef SIM_COV
 #include "vsched.h"
 #include "trap.h"
@@ -202,6 +203,7 @@ int main(int argc, char **argv) {
 #ifdef SIM_COV
     trapInit(argv[0]);
 #endif
+    constMemInit();
     std::string cmd = argv[1];
     if (cmd == "run") return cmdRun(argc, argv);
     if (cmd == "replay") return cmdReplay(argc, argv);
